@@ -159,6 +159,7 @@ def run_check(pid, tier="quick", update_baseline=False, seed=0, verbose=False):
     base_set = set(baseline.get("obligations", []))
 
     problems = []      # (group, status, verdicts)
+    out_of_reach = []  # (group, status, taint reasons): baseline obligations that fail only on tainted paths
     undecided_new = []
     missing_fns = [r for r in reports if r.missing]
     known_lines = []
@@ -179,7 +180,14 @@ def run_check(pid, tier="quick", update_baseline=False, seed=0, verbose=False):
         if s == "vacuous":
             problems.append((g, s, groups[g]))
         elif g in base_set or s == "refuted":
-            problems.append((g, s, groups[g]))
+            bad_ = [v for v in groups[g] if v.status not in ("proved", "covered", "unreachable")]
+            if bad_ and all(v.vc.tainted for v in bad_) and os.environ.get("PYVC_TAINTED_FAILURE_IS_VIOLATION") != "1":
+                # the obligation fails only on paths that left the verifier's reach (a construct it does not model, a loop without
+                # invariant ...): that is a limit of the tool, not a verdict about the code - undecided; the bounded stand-in
+                # below still runs on the real code and reports a violation with a replayed input if it finds one
+                out_of_reach.append((g, s, sorted({t for v in bad_ for t in v.vc.tainted})))
+            else:
+                problems.append((g, s, groups[g]))
         else:
             undecided_new.append((g, s, groups[g]))
     # baseline obligations that disappeared altogether (function gone / renamed): undecided, not violation
@@ -259,6 +267,7 @@ def run_check(pid, tier="quick", update_baseline=False, seed=0, verbose=False):
             dropped=sorted(set(dropped)), desugaring_log=sorted(set(logs))[:60],
             vanished_baseline_obligations=vanished,
             new_undecided=[g for g, _, _ in undecided_new],
+            out_of_reach=[dict(obligation=g, why=w) for g, _, w in out_of_reach],
             samples=samples,
             bounded=meta.get("bounded", []) + bounded_runs, not_decided=meta.get("not_decided", []),
             cross_check=[dict(obligation=group_name(v.vc), **v.vc.meta["cross"]) for v in verdicts if "cross" in v.vc.meta][:400],
@@ -286,10 +295,14 @@ def run_check(pid, tier="quick", update_baseline=False, seed=0, verbose=False):
             tail = "" if found else " no-failing-input-found"
             print(f"  failed obligation: {g}")
             print(f"VIOLATION property={pid} replay={rp}{tail}")
+        for g, s, why in out_of_reach:
+            print(f"  also no longer proved, on paths outside the verifier's reach: {g} ({'; '.join(why)[:160]})")
         return 1
-    if missing_fns or vanished or undecided_new:
+    if missing_fns or vanished or undecided_new or out_of_reach:
         for r in missing_fns:
             print(f"  undecided: {r.key}: {r.missing}")
+        for g, s, why in out_of_reach:
+            print(f"  undecided: {g}: no longer proved, but only on paths outside the verifier's reach ({'; '.join(why)[:200]})")
         for g in vanished:
             print(f"  undecided: baseline obligation no longer generated: {g}")
         for g, s, _ in undecided_new:
